@@ -11,3 +11,24 @@ fire("C41", "process_queue-sorted-traversal",
 silent("C41", "process_queue-rename-loop-var",
        [(QS, "    for obj, _ in queue.items():\n        if isinstance(obj, (Operator, Operator2, QuantumScript)):\n            if encountered_measurement:\n                raise ValueError(f\"{obj} must occur prior to measurements.\")\n            ops.append(obj)\n        elif isinstance(obj, MeasurementProcess):\n            measurements.append(obj)",
               "    for item, _ in queue.items():\n        obj = item\n        if isinstance(obj, (Operator, Operator2, QuantumScript)):\n            if encountered_measurement:\n                raise ValueError(f\"{obj} must occur prior to measurements.\")\n            ops.append(obj)\n        elif isinstance(obj, MeasurementProcess):\n            measurements.append(obj)")])
+
+# --- R-C41-consume
+fire("C41", "s_prod-eager-merge-leaves-operand-queued",
+     ("pennylane/ops/op_math/sprod.py", "    sprod_op = SProd(scalar=scalar * operator.scalar, base=operator.base)\n    QueuingManager.remove(operator)\n    return sprod_op",
+      "    return SProd(scalar=scalar * operator.scalar, base=operator.base)"),
+     "R-C41-consume", "s_prod")
+fire("C41", "prod-eager-dequeues-only-when-several-factors",
+     ("pennylane/ops/op_math/prod.py", "    for op in ops:\n        QueuingManager.remove(op)\n\n    return ops_simp",
+      "    if len(ops) > 2:\n        for op in ops:\n            QueuingManager.remove(op)\n\n    return ops_simp"),
+     "R-C41-consume", "prod")
+fire("C41", "sum-eager-never-dequeues",
+     ("pennylane/ops/op_math/sum.py", "    for op in summands:\n        QueuingManager.remove(op)\n\n    return summands_simp", "    return summands_simp"),
+     "R-C41-consume", "sum")
+fire("C41", "pow-eager-dequeues-only-for-single-op-result",
+     ("pennylane/ops/op_math/pow.py", "        pow_op = qp.prod(*pow_ops)\n    QueuingManager.remove(base)\n", "        pow_op = qp.prod(*pow_ops)\n    if num_ops == 1:\n        QueuingManager.remove(base)\n"),
+     "R-C41-consume", "pow")
+silent("C41", "sum-eager-dequeues-with-comprehension",
+       [("pennylane/ops/op_math/sum.py", "    for op in summands:\n        QueuingManager.remove(op)\n", "    _ = [QueuingManager.remove(s_) for s_ in summands]\n")])
+silent("C41", "s_prod-dequeues-before-building",
+       [("pennylane/ops/op_math/sprod.py", "    sprod_op = SProd(scalar=scalar * operator.scalar, base=operator.base)\n    QueuingManager.remove(operator)\n    return sprod_op",
+         "    QueuingManager.remove(operator)\n    return SProd(scalar=scalar * operator.scalar, base=operator.base)")])
